@@ -15,7 +15,9 @@ RULE = ('one case = one operation (OPTION BASE / DIM / ERASE / element read / el
         '(C) PRNG histories over six arrays of all four types; (D) Arrays.index / flat_length called directly; '
         '(F) short PRNG histories over {OPTION BASE 0/1, DIM with bounds 0..3, creation by first use, ERASE of one / '
         'several / the last / all arrays, access at subscript 0 / 1 / max / max+1, CLEAR, NEW, RUN} driving the base '
-        'through unset / implied / explicit several times; '
+        'through unset / implied / explicit several times; (G) assignments and SWAPs whose target is an element of a '
+        'not-yet-existing array and whose right-hand side raises an error / mentions the same array with another rank '
+        '/ mentions other not-yet-existing arrays, followed by DIM, subscript-11 and rank probes; '
         'non-trivial = the operation names an array (everything except CLEAR and dump)')
 EXPLANATION = ('theorems (PcbV.Props.C12): index_injective / index_surjective / index_lt_flatLength (flat index is a '
                'bijection between in-bounds tuples and buffer cells, for every shape and base), bounds_spec_* '
@@ -62,6 +64,11 @@ def enc_op(op):
         return 'c'      # Memory.clear(preserve_base=False): one model operation for CLEAR, NEW and RUN
     if k == 'dump':
         return 'dump'
+    if k == 'let':
+        return 'l:%d:%s:%s:%d:%d' % (op[1], enc_ints(op[2]),
+                                     '+'.join('%d.%s' % (m, enc_ints(j)) for m, j in op[3]) or '_', op[4], op[5])
+    if k == 'swap':
+        return 'w:%d:%s:%d:%s' % (op[1], enc_ints(op[2]), op[3], enc_ints(op[4]))
     raise ValueError(op)
 
 
@@ -157,6 +164,17 @@ class Impl(object):
                 return 'x:%r' % out
         elif k == 'dump':
             return self.dump()[0]
+        elif k == 'let':
+            # numeric arrays only: target(idx) = src + src + ... + c  [+ a term that fails after the reads]
+            n, idx, srcs, c, fail = op[1:6]
+            terms = [self.ref(m, j) for m, j in srcs] + [str(c)]
+            if fail == 13:
+                terms.append('"x"')
+            elif fail == 6:
+                terms.append('40000')       # target is an integer array: Overflow on conversion
+            out = self.run_stmt('%s%s=%s' % ('LET ' if self.rng.random() < 0.2 else '', self.ref(n, idx), '+'.join(terms)))
+        elif k == 'swap':
+            out = self.run_stmt('SWAP %s,%s' % (self.ref(op[1], op[2]), self.ref(op[3], op[4])))
         else:
             raise ValueError(op)
         c = self.classify(out)
@@ -335,6 +353,36 @@ class Oracle(object):
                 elif self.kind == 'implicit':
                     self.kind = 'fuzzy'
             return None
+        if k in ('let', 'swap'):
+            # the array references of the statement are used in reading order: target first, then the
+            # right-hand side left to right (SWAP: first operand, then second); each first use dimensions
+            if k == 'let':
+                refs = [(op[1], tuple(op[2]))] + [(m, tuple(j)) for m, j in op[3]]
+            else:
+                refs = [(op[1], tuple(op[2])), (op[3], tuple(op[4]))]
+            accept = None
+            for m, j in refs:
+                exp = self.access(m, j)
+                if exp[0] == 'err':
+                    accept = set('e%d' % c for c in exp[1])
+                    break
+            if accept is None and k == 'let' and op[5]:
+                accept = {'e%d' % op[5]}
+            if accept is None:
+                accept = {'ok'}
+            if tok not in accept:
+                return ('%s:expected-%s:got-%s' % (k, '/'.join(sorted(accept)), 'value' if tok[0] == 'v' else tok),
+                        '%s %s: expected %s, got %s (arrays %s, base %s)'
+                        % (k, op[1:], sorted(accept), tok, {NAMES[x]: a[0] for x, a in self.arrays.items()}, self.base))
+            if tok == 'ok':
+                if k == 'let':
+                    self.arrays[op[1]][1][refs[0][1]] = op[4] + sum(self.arrays[m][1].get(j, 0) for m, j in refs[1:])
+                else:
+                    (a, i), (b, j) = refs
+                    va, vb = self.arrays[a][1].get(i, 0), self.arrays[b][1].get(j, 0)
+                    self.arrays[a][1][i] = vb
+                    self.arrays[b][1][j] = va
+            return None
         if k in ('clear', 'new', 'run'):
             self.arrays, self.base, self.kind = {}, None, None
             return None if tok == 'ok' else ('%s:error' % k, '%s gave %s' % (k.upper(), tok))
@@ -366,6 +414,13 @@ def needs_bytes(orc, op):
     held = sum(bytes_of(n, a[0], orc.lb) for n, a in orc.arrays.items())
     if op[0] in ('get', 'set') and op[1] not in orc.arrays:
         return held + bytes_of(op[1], [10] * len(op[2]), orc.lb)
+    if op[0] in ('let', 'swap'):
+        refs = [(op[1], op[2])] + ([(m, j) for m, j in op[3]] if op[0] == 'let' else [(op[3], op[4])])
+        new = {}
+        for m, j in refs:
+            if m not in orc.arrays and m not in new:
+                new[m] = bytes_of(m, [10] * len(j), orc.lb)
+        return held + sum(new.values())
     if op[0] == 'dim':
         return held + sum(bytes_of(n, d, 0) for n, d in op[1] if d and n not in orc.arrays and min(d) >= 0)
     return 0
@@ -684,6 +739,116 @@ def base_history(rng):
 
 
 # ----------------------------------------------------------------------------------------------
+# (G) statements with several array references: which use comes first
+
+NUMERIC = [0, 1, 2, 3, 5]
+SAME_TYPE = [(0, 1), (1, 0), (2, 5), (5, 2), (0, 0), (3, 3), (2, 2)]
+
+
+def let_history(rng):
+    """
+    Assignments / SWAPs whose target is (mostly) an element of a not-yet-existing array and whose right-hand side
+    (a) raises an error - a subscript out of range on another array, Type mismatch, Overflow -, (b) mentions the
+    same array with another number of subscripts, (c) mentions other not-yet-existing arrays, (d) just works;
+    then probes of every array mentioned: DIM (Duplicate definition iff it exists), subscript 11, the rank.
+    """
+    sim = Oracle()
+    ops = []
+
+    def emit(op):
+        ops.append(op)
+        return predict(sim, op)
+
+    def in_range(rank):
+        return [rng.choice([sim.lb, 1, 3, 10, rng.randint(sim.lb, 10)]) for _ in range(rank)]
+
+    def good_ref(m):
+        a = sim.arrays.get(m)
+        if a:
+            return [rng.randint(sim.lb, max(sim.lb, d)) for d in a[0]]
+        return in_range(rng.choice([1, 1, 2]))
+
+    def bad_ref(m):
+        a = sim.arrays.get(m)
+        j = good_ref(m)
+        q = rng.random()
+        if q < 0.6:
+            j[rng.randrange(len(j))] = (a[0][0] if a else 10) + 1 + rng.choice([0, 0, 5])
+        elif q < 0.8:
+            j[rng.randrange(len(j))] = -1
+        else:
+            j = j + [1] if (len(j) == 1 or rng.random() < 0.5) else j[:-1]
+        return j
+
+    if rng.random() < 0.35:
+        sim = emit(['ob', rng.randint(0, 1)])
+    for _ in range(rng.choice([0, 0, 1, 2])):
+        m = rng.choice(NUMERIC)
+        sim = emit(['dim', [[m, [rng.randint(1, 6) for _ in range(rng.choice([1, 2]))]]]])
+        if m in sim.arrays:
+            sim = emit(['set', m, good_ref(m), rng.randint(1, 3000)])
+    mentioned = []
+    for _ in range(rng.choice([1, 1, 2, 3])):
+        fresh = [m for m in NUMERIC if m not in sim.arrays]
+        n = rng.choice(fresh) if fresh and rng.random() < 0.8 else rng.choice(NUMERIC)
+        idx = good_ref(n) if rng.random() < 0.88 else bad_ref(n)
+        if rng.random() < 0.22:
+            pairs = [p for p in SAME_TYPE if p[0] == n] or SAME_TYPE
+            a, b = rng.choice(pairs)
+            j = good_ref(b) if rng.random() < 0.5 else bad_ref(b)
+            if a == b and b not in sim.arrays:
+                j = (j + [1]) if len(j) == len(idx) and rng.random() < 0.5 else j
+            sim = emit(['swap', a, idx if a == n else good_ref(a), b, j])
+            mentioned += [a, b]
+            continue
+        cls = rng.choice('aaabbccd')
+        others = [m for m in NUMERIC if m != n]
+        srcs, fail = [], 0
+        for _ in range(rng.choice([0, 1, 1, 2])):
+            m = rng.choice(others)
+            srcs.append([m, good_ref(m)])
+        if cls == 'a':
+            q = rng.random()
+            if q < 0.6 or not srcs and q < 0.8:
+                m = rng.choice(others)
+                srcs.insert(rng.randint(0, len(srcs)), [m, bad_ref(m)])
+            elif NAMES[n][-1] == '%' and q < 0.8:
+                fail = 6
+            else:
+                fail = 13
+        elif cls == 'b':
+            other_rank = idx + [1] if (len(idx) == 1 or rng.random() < 0.5) else idx[:-1]
+            srcs.insert(rng.randint(0, len(srcs)), [n, [min(10, max(sim.lb, x)) for x in other_rank]])
+        elif cls == 'c':
+            fresh = [m for m in others if m not in sim.arrays]
+            for m in rng.sample(fresh, min(len(fresh), rng.choice([1, 2]))):
+                srcs.append([m, in_range(rng.choice([1, 2]))])
+        if rng.random() < 0.15:
+            srcs.append([n, list(idx)])         # the target itself, same rank
+        sim = emit(['let', n, idx, srcs[:3], rng.randint(0, 99), fail])
+        mentioned += [n] + [m for m, _ in srcs[:3]]
+    # probes
+    seen = []
+    for m in mentioned:
+        if m in seen:
+            continue
+        seen.append(m)
+        a = sim.arrays.get(m)
+        rank = len(a[0]) if a else 1
+        sim = emit(['dim', [[m, [20] * rank]]])
+        a = sim.arrays.get(m)
+        rank = len(a[0])
+        top = a[0]
+        sim = emit(['get', m, [d + 1 for d in top]])
+        sim = emit(['get', m, list(top)])
+        sim = emit(['get', m, list(top) + [1]] if rank == 1 or rng.random() < 0.5 else ['get', m, list(top)[:-1]])
+        if rng.random() < 0.4:
+            sim = emit(['set', m, [rng.randint(sim.lb, d) for d in top], rng.randint(1, 3000)])
+    ops.append(['dump'])
+    return ops
+
+
+# ----------------------------------------------------------------------------------------------
 # (D) the anchored functions called directly
 
 def direct_index(ctx, n_random):
@@ -841,7 +1006,7 @@ def run(ctx):
     flush(ctx, collect, 'random-history')
     ctx.log('random histories done: %d evaluations' % ctx.evaluations)
     # (F) OPTION BASE state machine
-    nb = 420 if ctx.quick else 12000
+    nb = 360 if ctx.quick else 12000
     for j in range(nb):
         ops = base_history(rng)
         run_history(ctx, impl, ops, 'F', collect)
@@ -850,8 +1015,19 @@ def run(ctx):
         if len(collect) >= 200:
             flush(ctx, collect, 'base-history')
     flush(ctx, collect, 'base-history')
-    impl.close()
     ctx.log('option-base histories done: %d evaluations' % ctx.evaluations)
+    # (G) several array references in one statement
+    ng = 260 if ctx.quick else 10000
+    for j in range(ng):
+        ops = let_history(rng)
+        run_history(ctx, impl, ops, 'G', collect)
+        if j == 0:
+            ctx.sample({'history': enc_hist(ops)})
+        if len(collect) >= 200:
+            flush(ctx, collect, 'let-history')
+    flush(ctx, collect, 'let-history')
+    impl.close()
+    ctx.log('multi-reference statements done: %d evaluations' % ctx.evaluations)
     direct_index(ctx, 150 if ctx.quick else 3000)
     subscript_forms(ctx)
 
